@@ -7,16 +7,19 @@ TRUSTED = TRUSTED_TRACKS
 EXPLANATION = (
     "PROVED (SMT, unbounded): B1 (the per-track lookup lists each node carrying the id exactly once, as a bag) and B2 (max ids dominate "
     "all ids in use, so max+1 is fresh) are preserved by every user action; AddNode/DeleteNode are proved to add/remove exactly the "
-    "node under its id in both lookups (real bookkeeping helpers inlined) and to raise the maxima. BOUNDED STAND-INS (not proofs): bodies "
-    "of get_track_neighbors / has_track_id_at_time against their query contracts, and the bookkeeping inside the relabel walk.")
+    "node under its id in both lookups (real bookkeeping helpers inlined) and to raise the maxima. The bodies of get_track_neighbors (in-place sort by "
+    "time, scan with break: loop invariant over the sorted lookup list) and has_track_id_at_time are PROVED against their query contracts: results equal a "
+    "scan of the graph for every track id and time. BOUNDED STAND-IN (not a proof): the lookup bookkeeping at the end of the relabel walk; the query bodies "
+    "are additionally cross-checked natively on all small forests with every order of the lookup lists.")
 ASSUMPTIONS = ["tracklet (and, for the lineage clauses, lineage) feature enabled and registered",
                "lineage lookup B1 is claimed only through AddNode/DeleteNode contracts and the bounded walk check"]
-NOT_UNDER_CONTRACT = ["SolutionTracks.get_track_neighbors / has_track_id_at_time bodies (bounded stand-in)",
+NOT_UNDER_CONTRACT = ["TrackAnnotator._update_tracklet_bookkeeping / _update_lineage_bookkeeping (bounded stand-in)",
                       "Tracks._get_new_node_ids (see bounded/new_node_ids)"]
 
 
 def units(tier):
-    return useractions.units(UA_ALL) + useractions.units(UA_ALL, {"lineage_inv": True}) + primitives.units(names=["AddNodeC", "DeleteNodeC"])
+    from contracts import queries
+    return queries.units() + useractions.units(UA_ALL) + useractions.units(UA_ALL, {"lineage_inv": True}) + primitives.units(names=["AddNodeC", "DeleteNodeC"])
 
 
 def bounded(tier, seed):
